@@ -158,6 +158,13 @@ func (r *rawResponseWriter) finish(snapshotHeaders http.Header) {
 	case *conformancev1.RawHTTPResponse_Stream:
 		_ = internal.WriteRawStreamContents(contents.Stream, r.respWriter)
 	}
+	// The headers have been sent. Remove those that share a name with a trailer
+	// from the map: the HTTP/1.1 server sends whatever the map holds under a
+	// pre-declared trailer name, which would repeat the header's values as
+	// trailer values.
+	for _, hdr := range resp.Trailers {
+		r.respWriter.Header().Del(hdr.Name)
+	}
 	internal.AddTrailers(resp.Trailers, r.respWriter.Header())
 }
 
